@@ -863,16 +863,18 @@ func genAcsCases(g *h.Gen) {
 		g.Emit("acs %s syn:%s:%s:%s", v, h.Hex([]byte(acsc)), h.Hex([]byte(smacs)), h.Hex([]byte(rmacs)))
 	}
 	for _, c := range [][3]string{
-		{"qqxx", "\x1b(0$<2>", "\x1b(B$<4>"},          // the vt220 form
-		{"qqxx", "\x1b$<5>(0", "$<1.5*/>\x1b(B"},       // in the middle / at the start, all flag forms
-		{"qqxx", "$<2>\x0e$<3/>", "\x0f$<10*>$<2>"},     // several specifications
-		{"qqxx", "<$<x>$", ">$<>"},                     // `$<…>` that is no padding specification: ordinary text
-		{"qqxx", "<$<2", ">$"},                         // unterminated
-		{"qqxx", "<$<$<2>", ">$<2>$<"},                 // a specification after a stray `$<`
-		{"q$x<", "<$<2>", ">"},                         // `$` `<` as the terminal's own characters
-		{"qq", "$<2>", "$<4>"},                         // smacs/rmacs that are nothing but padding
-		{"qqxx~~", "$1<2>", "$ <4>"},                   // not specifications
-		{"q\xc4", "\x1b[11m$<2>", "\x1b[10m$<.5>"},     // high byte; `.5` has no leading digit: not a specification
+		{"qqxx", "\x1b(0$<2>", "\x1b(B$<4>"},        // the vt220 form
+		{"qqxx", "\x1b$<5>(0", "$<1.5*/>\x1b(B"},    // in the middle / at the start, all flag forms
+		{"qqxx", "$<2>\x0e$<3/>", "\x0f$<10*>$<2>"}, // several specifications
+		{"qqxx", "<$<x>$", ">$<>"},                  // `$<…>` that is no padding specification: ordinary text
+		{"qqxx", "<$<2", ">$"},                      // unterminated
+		{"qqxx", "<$<$<2>", ">$<2>$<"},              // a specification after a stray `$<`
+		{"q$x<", "<$<2>", ">"},                      // `$` `<` as the terminal's own characters
+		{"qq", "$<2>", "$<4>"},                      // smacs/rmacs that are nothing but padding
+		{"qqxx~~", "$1<2>", "$ <4>"},                // not specifications
+		{"q\xc4", "\x1b[11m$<2>", "\x1b[10m$<.5>"},  // high byte; `.5` has no leading digit: not a specification
+		{"q2x3", "<$<", ">"},                        // each capability string is taken by itself: `<$<` + `2` + `>` stays
+		{"q>x<", "a$<1", "$<2>b"},                   // … and the terminal's character cannot close a specification
 	} {
 		syn(c[0], c[1], c[2])
 	}
@@ -886,7 +888,7 @@ func genAcsCases(g *h.Gen) {
 		return sb.String()
 	}
 	for i := g.N(150, 3000); i > 0; i-- {
-		syn(h.Pick(r, []string{"qqxx", "qq", "~~", "q\xc4xx", "q$", "lqmx", "q"}), mk(), mk())
+		syn(h.Pick(r, []string{"qqxx", "qq", "~~", "q\xc4xx", "q$", "lqmx", "q", "q2", "q>x<"}), mk(), mk())
 	}
 }
 
